@@ -82,11 +82,14 @@ def gen_scenario(seed, index):
     ops = []
     mutated = False
     for _ in range(n):
-        k = weighted(rng, [("repeat", 60), ("fail", 12), ("fault", 12), ("resolve", 6),
+        k = weighted(rng, [("repeat", 60), ("sibling", 10), ("fail", 12), ("fault", 12), ("resolve", 6),
                            ("display", 3), ("derive", 4), ("introspect", 5), ("abc", 3),
                            ("mutate", 3 if not mutated else 0.5)])
         if k in ("repeat", "fail"):
             ops.append({"op": k, "i": rng.randrange(len(corpus))})
+        elif k == "sibling":
+            # the same argument TYPES with other values: class objects replaced by another plain class
+            ops.append({"op": "sibling", "i": rng.randrange(len(corpus)), "pick": rng.randrange(1000)})
         elif k == "fault":
             kind = weighted(rng, [("crash", 6), ("hook", 4)])
             ops.append({"op": "fault", "i": rng.randrange(len(corpus)), "kind": kind,
@@ -169,9 +172,60 @@ def execute(scen):
                 warmed.add(i)
                 stats["rewarms"] += 1
 
+    # classes whose own type is plain `type` (a subclass of an ABC has metaclass ABCMeta)
+    plain = [n for n, _, _ in spec["classes"]
+             if n not in ("KX", "KM") and type(getattr(h.w.mod, n)) is type]
+
+    def sibling_of(c, pick):
+        """Same argument types, other values: a class object passed at a position that is keyed
+        by plain type() is replaced by another class of the same metaclass."""
+        fl = spec["meta"]["flavour"]
+        out, changed = [], False
+        for p, a in enumerate(c.get("args", [])):
+            if a[0] == "T" and a[1] in plain and p < len(fl) and fl[p] != "type" and len(plain) > 1:
+                others = [n for n in plain if n != a[1]]
+                out.append(["T", others[pick % len(others)]])
+                changed = True
+            else:
+                out.append(a)
+        if not changed:
+            return None
+        c2 = dict(c)
+        c2["args"] = out
+        return c2
+
+    # positions where some method has a generic-alias annotation are keyed by the class itself
+    generic_pos = set()
+    for r in scen["regs"]:
+        for p, prm in enumerate(spec["methods"][r[0]]["params"]):
+            if prm[2][0] == "t":
+                generic_pos.add(p)
+
     warm_all()
     for j, op in enumerate(scen["ops"]):
         k = op["op"]
+        if k == "sibling":
+            i = op["i"]
+            c2 = sibling_of(corpus[i], op["pick"]) if i in warmed and not generic_pos else None
+            if c2 is not None:
+                ref = ref_outcomes(spec, regs, [c2], scen["label"])[0]
+                # only when the sibling takes the same route (same methods entered), so that no
+                # new nested combination can legitimately appear
+                ref0 = ref_outcomes(spec, regs, [corpus[i]], scen["label"])[0]
+                if ref[0] == "ok" and ref[1] == ref0[1]:
+                    out, moved, hits, steps = monitored_call(c2)
+                    stats["repeats_checked"] += 1
+                    stats["disturb"]["sibling_values"] = stats["disturb"].get("sibling_values", 0) + 1
+                    trace.append(["sib", i, out[0], steps])
+                    if out[0] == "ok" and (moved or hits):
+                        violation = {"clause": "a call with an already handled argument-type combination (other "
+                                               "values of the same types) performed type-order / applicability "
+                                               "computation",
+                                     "op_index": j, "call": c2, "warmed_by": corpus[i],
+                                     "hooks_consulted": moved, "resolution_functions_called": hits,
+                                     "symptom": "recomputed-sibling:" + ",".join(hits[:2] or sorted(moved)[:2])}
+                        break
+            continue
         if k in ("repeat", "fail"):
             i = op["i"]
             c = corpus[i]
